@@ -24,11 +24,14 @@ LEVEL_TEXT = (
     "limited decider validates at construction (constructors interpreted: the limit is stored, forwarded "
     "unchanged through super().__init__ chains, validate is called after it is stored), every raising path of "
     "validate (found through the hierarchy, mixins included) entails max_depth < grammar minimum and every "
-    "returning path the converse, the error is the library's; (R4) mutate is interpreted on a node with a stored "
-    "context: it is re-created under that very context; (R5) AND forms aggregate minimum depths with max; (R7) "
-    "the synthesis context stored on a created value is the context it was created under (create_node interpreted"
-    " per form with a context at depth 2: every context stored on the returned value holds depth 2), so that re-"
-    "creation under the stored context (R4) does not drift deeper with every mutation; (R6) creation model "
+    "returning path the converse, the error is the library's; the rejection is also executed in the model (limit "
+    "1, minimum 3 or the 'unreachable' sentinel; a grammar whose start symbol has productions and one whose start"
+    " symbol is a concrete class, table lookups strict): every run ends in the library's error, never in a "
+    "KeyError of the message-building code; (R4) mutate is interpreted on a node with a stored context: it is re-"
+    "created under that very context; (R5) AND forms aggregate minimum depths with max; (R7) the synthesis "
+    "context stored on a created value is the context it was created under (create_node interpreted per form with"
+    " a context at depth 2: every context stored on the returned value holds depth 2), so that re-creation under "
+    "the stored context (R4) does not drift deeper with every mutation; (R6) creation model "
     "(sa/rules/creationmodel.py): random_node interpreted with each real decider object - MaxDepth, position-"
     "independent grow, Full, dynamic-SGE - over ALL decision scripts (an attribute a decider reads but no "
     "constructor sets is a failure, not a guess) on four model grammars and every limit from the grammar minimum "
